@@ -35,6 +35,7 @@ func runChild(cases []fcase) []cresult {
 	f.Write(b)
 	f.Close()
 	cmd := osexec.Command(exe, "-c02child", f.Name())
+	cmd.Env = append(os.Environ(), "GOMAXPROCS=4")
 	var stderr bytes.Buffer
 	cmd.Stderr = &stderr
 	stdout, err := cmd.StdoutPipe()
@@ -148,6 +149,8 @@ func errClass(msg string) string {
 		return "too-many-consecutive-losses"
 	case strings.Contains(m, "checksum"):
 		return "checksum"
+	case strings.Contains(m, "integrity"):
+		return "integrity"
 	case strings.Contains(m, "no location"):
 		return "no-location"
 	case strings.Contains(m, "gob") || strings.Contains(m, "decod"):
@@ -252,25 +255,31 @@ func firedOK(c fcase, res cresult) bool {
 	if len(res.Fired) != len(c.Faults) {
 		return false
 	}
-	for i, f := range c.Faults {
+	for i := range c.Faults {
 		if !res.Fired[i] {
 			return false
-		}
-		if f.Victim != "" && !contains(res.Killed, f.Victim) {
-			return false // the named victim never existed in this run
 		}
 	}
 	return true
 }
 
-func variantClass(v string) string {
-	if strings.HasPrefix(v, "mid:") {
-		if v == "mid:0" {
+// variantClass: mid0 = cut before the first byte, midB = cut exactly at the end
+// of an encoded batch, mid = cut inside a batch.
+func variantClass(f vsys.Fault, inf *progInfo) string {
+	if strings.HasPrefix(f.Variant, "mid:") {
+		var k int
+		fmt.Sscanf(f.Variant, "mid:%d", &k)
+		if k == 0 {
 			return "mid0"
+		}
+		for _, b := range inf.bounds[stripOcc(f.Label)] {
+			if b == k {
+				return "midB"
+			}
 		}
 		return "mid"
 	}
-	return v
+	return f.Variant
 }
 
 func pointSig(f vsys.Fault, callee string, inf *progInfo) string {
@@ -278,8 +287,8 @@ func pointSig(f vsys.Fault, callee string, inf *progInfo) string {
 	if inf.scanOnly[f.Label] {
 		m += "@scan"
 	}
-	s := m + "/" + variantClass(f.Variant)
-	if f.Victim != "" && f.Victim != callee {
+	s := m + "/" + variantClass(f, inf)
+	if f.Victim != "" {
 		s += "/victim-other"
 	}
 	return s
@@ -320,10 +329,13 @@ func account(c fcase, res cresult, inf *progInfo, suspects *[]suspect) bool {
 	if len(c.Faults) == 1 {
 		f := c.Faults[0]
 		victim := "callee"
-		if f.Victim != "" && len(res.Callee) == 1 && f.Victim != res.Callee[0] {
-			victim = "other:" + f.Victim
+		if f.Victim != "" {
+			victim = f.Victim
 		}
 		key := c.Prog + "|" + f.Label + "|" + f.Variant
+		if f.Victim != "" {
+			key += "|other"
+		}
 		if !tl.firedKeys[key] {
 			tl.firedKeys[key] = true
 			tl.perMethod[methodOf(f.Label)]++
@@ -333,6 +345,9 @@ func account(c fcase, res cresult, inf *progInfo, suspects *[]suspect) bool {
 		tl.pairFired[c.Prog+"|"+c.Mode+"|"+faultKey(c.Faults[0])+"|"+faultKey(c.Faults[1])] = true
 	}
 	tl.outcomes[c.Mode+"/"+class]++
+	if len(res.Spurious) > 0 {
+		tl.spurious++
+	}
 	if violates(class, c.Mode) {
 		*suspects = append(*suspects, suspect{c, res, class, signature(c, res, inf, class)})
 	}
@@ -381,13 +396,13 @@ func exploreAll(r *ev.Run, cases []fcase, infos map[string]*progInfo, budget tim
 
 // confirm re-runs suspected violations and reports them.
 func confirm(r *ev.Run, suspects []suspect, infos map[string]*progInfo) {
-	// at most 2 representatives per signature
+	// at most 4 representatives per signature
 	perSig := map[string]int{}
 	total := map[string]int{}
 	var todo []suspect
 	for _, s := range suspects {
 		total[s.sig]++
-		if perSig[s.sig] < 2 {
+		if perSig[s.sig] < 4 {
 			perSig[s.sig]++
 			todo = append(todo, s)
 		}
@@ -456,6 +471,7 @@ func confirm(r *ev.Run, suspects []suspect, infos map[string]*progInfo) {
 		}
 		if !report {
 			unconfirmed++
+			saveUnconfirmed(s, reruns[i].classes)
 			r.Note("suspect not confirmed (not reported): %s first=%s re-runs=%v faults=%v", s.sig, s.class, reruns[i].classes, s.c.Faults)
 			continue
 		}
@@ -488,4 +504,17 @@ func confirm(r *ev.Run, suspects []suspect, infos map[string]*progInfo) {
 	if unconfirmed > 0 {
 		r.Note("%d suspected violations did not reproduce on %d re-runs and were not reported", unconfirmed, nConfirm)
 	}
+}
+
+// saveUnconfirmed keeps the details of a suspect that did not reproduce (for
+// manual analysis; not part of the verdict).
+func saveUnconfirmed(s suspect, reruns []string) {
+	dir := os.Getenv("VERIF_BUILD")
+	if dir == "" {
+		dir = ev.Root() + "/.build"
+	}
+	dir += "/c02-unconfirmed"
+	os.MkdirAll(dir, 0777)
+	b, _ := json.MarshalIndent(map[string]interface{}{"signature": s.sig, "case": s.c, "first": s.res, "rerun_outcomes": reruns}, "", " ")
+	os.WriteFile(dir+"/"+ev.Hash(s.sig+fmt.Sprint(s.c.Faults))+".json", b, 0666)
 }
